@@ -68,6 +68,15 @@ pub mod vp_sig {
                 forall|i: int, j: int| 0 <= i < j < r@.len() ==> r@[i]@ != r@[j]@,
         { unimplemented!() }
     }
+    impl<V> JsonMap<V> {
+        /// (key, value) pairs in ascending key order (stands for iterating `&BTreeMap<String, V>`)
+        #[verifier::external_body]
+        pub fn entries(&self) -> (r: Vec<(&String, &V)>)
+            ensures
+                forall|i: int| 0 <= i < r@.len() ==> self.view().contains_key((#[trigger] r@[i]).0@) && *r@[i].1 == self.view()[r@[i].0@],
+                forall|k: Seq<char>| self.view().contains_key(k) ==> exists|i: int| 0 <= i < r@.len() && (#[trigger] r@[i]).0@ == k,
+        { unimplemented!() }
+    }
     impl<V: Clone> Clone for JsonMap<V> {
         #[verifier::external_body]
         fn clone(&self) -> (r: Self) ensures r.view() == self.view() { unimplemented!() }
